@@ -235,6 +235,24 @@ func flatOf(ps []geom.Coord, stride int, salt int) []float64 {
 	return out
 }
 
+// finiteExtra appends k copies of v to the first two ordinates of c; finiteFlat flattens ps with the extra ordinates
+// 10 + index (finite, pairwise different).
+func finiteExtra(c geom.Coord, k int, v float64) geom.Coord {
+	out := append(geom.Coord{}, c[:2]...)
+	for i := 0; i < k; i++ {
+		out = append(out, v)
+	}
+	return out
+}
+
+func finiteFlat(ps []geom.Coord, stride int) []float64 {
+	var out []float64
+	for i, p := range ps {
+		out = append(out, finiteExtra(p, stride-2, float64(10+i))...)
+	}
+	return out
+}
+
 func layoutOfStride(s int) geom.Layout {
 	switch s {
 	case 2:
@@ -310,6 +328,11 @@ func locateHandler(raw json.RawMessage) map[string]any {
 			locName(func() int { return int(xy.LocatePointInRing(geom.XYZ, withExtra(q, 1, k), flatOf(closed, 3, k))) }),
 			locName(func() int { return int(xy.LocatePointInRing(geom.XYZM, withExtra(q, 2, k), flatOf(closed, 4, k))) }),
 			locName(func() int { return int(xy.LocatePointInRing(geom.Layout(5), withExtra(q, 3, k), flatOf(closed, 5, k))) }),
+			// finite extra ordinates; the query's lie far outside the range of the ring's (the location is a matter of x, y)
+			locName(func() int { return int(xy.LocatePointInRing(geom.XYZ, finiteExtra(q, 1, 1e9), finiteFlat(closed, 3))) }),
+			locName(func() int {
+				return int(xy.LocatePointInRing(geom.XYZM, finiteExtra(q, 2, -1e9), finiteFlat(closed, 4)))
+			}),
 		}
 		loc = append(loc, row)
 		b := false
@@ -589,7 +612,25 @@ func distHandler(raw json.RawMessage) map[string]any {
 				)})
 			}
 		}
-		out["pt"], out["seg"] = prow, srow
+		// point against the three-vertex linestrings a-b-c (c over the grid), in both directions and in a layout with
+		// an extra ordinate: the minimum over SEVERAL segments, whichever is visited first
+		var lrow []any
+		for k, p := range g {
+			for _, q := range g {
+				lrow = append(lrow, map[string]any{"p": []int{int(p[0]), int(p[1])}, "c": []int{int(q[0]), int(q[1])}, "r": distRow(
+					func() float64 {
+						return xy.DistanceFromPointToLineString(geom.XY, p, []float64{a[0], a[1], b[0], b[1], q[0], q[1]})
+					},
+					func() float64 {
+						return xy.DistanceFromPointToLineString(geom.XY, p, []float64{q[0], q[1], b[0], b[1], a[0], a[1]})
+					},
+					func() float64 {
+						return xy.DistanceFromPointToLineString(geom.XYM, withExtra(p, 1, k), []float64{a[0], a[1], 7, b[0], b[1], -7, q[0], q[1], 70})
+					},
+				)})
+			}
+		}
+		out["pt"], out["seg"], out["pls"] = prow, srow, lrow
 	case "d3":
 		g := grid3(c.N)
 		var prow, srow []any
@@ -664,12 +705,31 @@ func rdpHandler(raw json.RawMessage) map[string]any {
 		Pts    []pt
 		Stride int
 		Thr    [2]int
+		// Fill: how the ordinates beyond x, y are chosen. "" = values unrelated to any coordinate; "next" = the LAST
+		// ordinates of point i repeat (x, y) of point i+1, "prev" = the FIRST extra ordinates repeat (x, y) of point
+		// i-1 (as far as the stride allows): the simplification must not care.
+		Fill string
 	}
 	must(json.Unmarshal(raw, &c))
 	thr := float64(c.Thr[0]) / float64(c.Thr[1])
 	var flat []float64
 	for i, p := range c.Pts {
-		flat = append(flat, withExtra(p.coord(), c.Stride-2, i)...)
+		v := withExtra(p.coord(), c.Stride-2, i)
+		switch {
+		case c.Stride > 2 && c.Fill == "next" && i+1 < len(c.Pts):
+			nx := c.Pts[i+1].coord()
+			v[c.Stride-1] = nx[1]
+			if c.Stride-2 >= 2 {
+				v[c.Stride-2] = nx[0]
+			}
+		case c.Stride > 2 && c.Fill == "prev" && i > 0:
+			pv := c.Pts[i-1].coord()
+			v[2] = pv[0]
+			if c.Stride > 3 {
+				v[3] = pv[1]
+			}
+		}
+		flat = append(flat, v...)
 	}
 	in := append([]float64{}, flat...)
 	out := map[string]any{"idx": []int{}, "idx2": []int{}, "msg": ""}
